@@ -93,6 +93,15 @@ def positions():
         add("%s with an extra argument" % fn, "x >= sum(z in %s(%s)) {{ 1 }}%s" % (fn, ", ".join(good[fn] + ["{v}"]), " for v0 in nodes(G)" if "v0" in good[fn] else ""))
         if ar > 1:
             add("%s with a missing argument" % fn, "x >= sum(z in %s(%s)) {{ 1 }}" % (fn, ", ".join(good[fn][:-1]).replace(good[fn][0], "{v}", 1)))
+    # the elements of a set function's result are used with the kind the checker gives them
+    for fn in ("union", "intersection", "difference"):
+        add("%s element as a number" % fn, "x >= sum(z in %s(A, {v})) {{ z }}" % fn)
+        add("%s element as a number, first operand" % fn, "x >= sum(z in %s({v}, A)) {{ z }}" % fn)
+        add("%s element as an index" % fn, "x >= A[z] for z in %s([0, 1], {v})" % fn)
+        add("%s of rows, element indexed" % fn, "x >= sum(row in %s(M, {v})) {{ row[0] }}" % fn)
+        add("%s of edges, destructured" % fn, "x >= sum((u1, u2, w) in %s(edges(G), {v})) {{ w }}" % fn)
+    add("zip element as a number", "x >= sum((l, r) in zip(A, {v})) {{ l + r }}")
+    add("enumerate element as a number", "x >= sum((el, ix) in enumerate({v})) {{ el }}")
     add("len as a number", "x >= len({v})")
     add("len of len", "x >= len(len({v}))")
     add("unknown function", "x >= nope({v})")
